@@ -60,6 +60,7 @@ class ProcWorld:
         self.marks = []
         self.hooks = []
         self.late_hooks = {}
+        self.no_events = []          # a user-owned constant: the engine must never write into it
         self.nest_rng = nest_rng
         self.sink = _Sink(self)
         self.procs = [_Proc(p + 1, self) for p in range(len(prog["start"]))]
@@ -146,7 +147,11 @@ class _Proc(Entity):
             n += 1
             k = s["k"]
             if k == "D":
-                recv = yield w.delay(s["a"])
+                if w.nest_rng is not None and w.nest_rng.random() < 0.35:
+                    # `yield delay, NO_EVENTS` with one list object shared by every yield of every process
+                    recv = yield (w.delay(s["a"]), w.no_events)
+                else:
+                    recv = yield w.delay(s["a"])
             elif k == "DE":
                 form = 0 if w.nest_rng is None else w.nest_rng.randrange(3)
                 ev = self.mark(n, s["b"])
